@@ -960,3 +960,178 @@ func siblingIndexAudit(c *Ctx, rule string, rels []string) int {
 	}
 	return nPairs
 }
+
+// statusConstWritten: the constant status a call commits to an HTTP response: WriteHeader(k), http.Error(_, _, k),
+// server.SendError(_, k, _), or a call of a module function that hands its constant argument on to one of those
+// (response helpers, followed three levels deep).
+func statusConstWritten(cl ssa.CallInstruction, depth int) (int64, bool) {
+	cc := cl.Common()
+	switch {
+	case cc.IsInvoke() && cc.Method.Name() == "WriteHeader" && len(cc.Args) == 1:
+		return constInt(cc.Args[0])
+	case callName(cl) == "net/http.Error" && len(cc.Args) == 3:
+		return constInt(cc.Args[2])
+	case callName(cl) == serverPath+".SendError" && len(cc.Args) >= 2:
+		return constInt(cc.Args[1])
+	}
+	if depth >= 3 {
+		return 0, false
+	}
+	sf := staticFn(cl)
+	if sf == nil || sf.Pkg == nil || !strings.HasPrefix(sf.Pkg.Pkg.Path(), modPath) {
+		return 0, false
+	}
+	for i, a := range cc.Args {
+		k, isK := constInt(a)
+		if !isK || i >= len(sf.Params) {
+			continue
+		}
+		p := sf.Params[i]
+		hit := false
+		eachCall(sf, func(in ssa.CallInstruction) {
+			ic := in.Common()
+			var sv ssa.Value
+			switch {
+			case ic.IsInvoke() && ic.Method.Name() == "WriteHeader" && len(ic.Args) == 1:
+				sv = ic.Args[0]
+			case callName(in) == "net/http.Error" && len(ic.Args) == 3:
+				sv = ic.Args[2]
+			case callName(in) == serverPath+".SendError" && len(ic.Args) >= 2:
+				sv = ic.Args[1]
+			default:
+				if inner := staticFn(in); inner != nil && inner != sf {
+					for j, ia := range ic.Args {
+						if ia == ssa.Value(p) && j < len(inner.Params) {
+							// handed on to a further helper: judge that helper with the same constant
+							if _, ok := statusParamWritten(inner, j, depth+1); ok {
+								hit = true
+							}
+						}
+					}
+				}
+				return
+			}
+			if sv == ssa.Value(p) {
+				hit = true
+			}
+		})
+		if hit {
+			return k, true
+		}
+	}
+	return 0, false
+}
+
+// statusParamWritten: parameter i of fn is committed as the response status (directly or through further helpers).
+func statusParamWritten(fn *ssa.Function, i int, depth int) (int64, bool) {
+	if depth > 3 || i >= len(fn.Params) {
+		return 0, false
+	}
+	p := fn.Params[i]
+	hit := false
+	eachCall(fn, func(in ssa.CallInstruction) {
+		ic := in.Common()
+		switch {
+		case ic.IsInvoke() && ic.Method.Name() == "WriteHeader" && len(ic.Args) == 1:
+			hit = hit || ic.Args[0] == ssa.Value(p)
+		case callName(in) == "net/http.Error" && len(ic.Args) == 3:
+			hit = hit || ic.Args[2] == ssa.Value(p)
+		case callName(in) == serverPath+".SendError" && len(ic.Args) >= 2:
+			hit = hit || ic.Args[1] == ssa.Value(p)
+		default:
+			if inner := staticFn(in); inner != nil && inner != fn {
+				for j, ia := range ic.Args {
+					if ia == ssa.Value(p) {
+						if _, ok := statusParamWritten(inner, j, depth+1); ok {
+							hit = true
+						}
+					}
+				}
+			}
+		}
+	})
+	return 0, hit
+}
+
+// typeAlwaysEncodable: encoding/json cannot fail on a value of this static type (no float, interface, func, chan
+// or Marshaler anywhere inside).
+func typeAlwaysEncodable(t types.Type, depth int) bool {
+	if depth > 5 {
+		return false
+	}
+	if n, ok := t.(*types.Named); ok && n.NumMethods() > 0 {
+		return false
+	}
+	switch u := t.Underlying().(type) {
+	case *types.Basic:
+		return u.Info()&(types.IsString|types.IsBoolean|types.IsInteger) != 0
+	case *types.Map:
+		kb, ok := u.Key().Underlying().(*types.Basic)
+		return ok && kb.Info()&types.IsString != 0 && typeAlwaysEncodable(u.Elem(), depth+1)
+	case *types.Slice:
+		return typeAlwaysEncodable(u.Elem(), depth+1)
+	case *types.Array:
+		return typeAlwaysEncodable(u.Elem(), depth+1)
+	case *types.Struct:
+		for i := 0; i < u.NumFields(); i++ {
+			if !typeAlwaysEncodable(u.Field(i).Type(), depth+1) {
+				return false
+			}
+		}
+		return true
+	}
+	return false
+}
+
+// handlerSourceRoute: the *ast.Route a server.Route literal's Handler value h was made from. Either h derives from it
+// in fn itself, or fn is a constructor helper that is handed both the handler and the declaration: then the
+// declaration parameter is the source, and every call site of fn (obligation per site under rule) must pass a handler
+// made from the very declaration it passes.
+func handlerSourceRoute(c *Ctx, rule string, fn *ssa.Function, h ssa.Value) (ssa.Value, int) {
+	isAstRoute := func(v ssa.Value) bool {
+		_, isP := v.Type().(*types.Pointer)
+		return isP && typeIs(v.Type(), astPath, "Route")
+	}
+	var src ssa.Value
+	derivesFrom(h, func(v ssa.Value) bool {
+		if isAstRoute(v) {
+			src = v
+			return true
+		}
+		return false
+	})
+	if src != nil {
+		return src, 1
+	}
+	hi, ri, nr := -1, -1, 0
+	for i, p := range fn.Params {
+		if ssa.Value(p) == h {
+			hi = i
+		}
+		if isAstRoute(p) {
+			ri = i
+			nr++
+		}
+	}
+	if hi < 0 || nr != 1 {
+		return nil, 0
+	}
+	sites := 0
+	for _, caller := range c.srcFuncs(glyphCmd) {
+		k := 0
+		eachCall(caller, func(cl ssa.CallInstruction) {
+			if staticFn(cl) != fn || len(cl.Common().Args) <= hi || len(cl.Common().Args) <= ri {
+				return
+			}
+			k++
+			sites++
+			decl := cl.Common().Args[ri]
+			same := derivesFrom(cl.Common().Args[hi], func(v ssa.Value) bool { return v == decl })
+			c.ob(rule, fnKey(caller)+"#"+fn.Name()+"-handler-made-from-the-declaration-passed-"+itoa(k), cl.Pos(), same, "the handler handed to "+fn.Name()+" is not made from the declaration handed to it: the route is registered under one declaration's method, path and middlewares with another's body")
+		})
+	}
+	if sites == 0 {
+		return nil, 0
+	}
+	return fn.Params[ri], sites
+}
